@@ -235,7 +235,7 @@ Proof.
     cbn [app map last]. rewrite !app_nil_r. cbn [map app].
     rewrite Htypes. unfold conv.
     rewrite !(has_type_app_foreign _ (type_exts B) _ (type_defs B)).
-    + rewrite !has_type_map. cbn. rewrite app_assoc. reflexivity.
+    + rewrite !has_type_map. cbn. reflexivity.
     + intros t Ht. apply (H3 t Ht).
     + intros t Ht. apply (H3 t Ht).
     + intros t Ht. apply (H3 t Ht).
@@ -243,6 +243,6 @@ Proof.
     unfold extend_args. cbn [s_types s_directives s_query s_mutation s_subscription s_desc empty_schema].
     rewrite schema_defs_app, HsB, EA, schema_ext_ops_app, HeB, type_exts_app, type_defs_app, dir_defs_app.
     cbn [app map last]. rewrite !app_nil_r. cbn [map app].
-    rewrite Htypes. cbn. rewrite app_assoc.
+    rewrite Htypes. cbn.
     destruct x as [[d|] ops]; reflexivity.
 Qed.
